@@ -344,7 +344,7 @@ func init() {
 			"only the first LENGTH bits of the output are compared; bit lengths are within 0..8*len(buffer)",
 			"crypto/aes is the trusted AES block primitive",
 		},
-		Oracles: map[string]func(*core.Ctx, *core.Case){"cold-entries": coldEntries, "cipher": c06Cipher, "keystream": c06Keystream, "cipher-seq": c06CipherSeq, "concurrent": c06Concurrent, "many-keys": c06ManyKeys, "cold-concurrent": coldConcurrent},
+		Oracles: map[string]func(*core.Ctx, *core.Case){"cold-entries": coldEntries, "cipher": c06Cipher, "keystream": c06Keystream, "cipher-seq": c06CipherSeq, "mac": c07Mac, "mixed-seq": cryptoMixedSeq, "concurrent": c06Concurrent, "many-keys": c06ManyKeys, "cold-concurrent": coldConcurrent},
 		Floors: func(tier string, cov map[string]map[string]int64, cnt map[string]int64) []string {
 			var f []string
 			if cnt["reference_kat_vectors_passed"] == 0 {
@@ -485,7 +485,7 @@ func init() {
 			}
 		}
 		us = append(us, cryptoConcurrentUnits("concurrent")...)
-		us = append(us, zeroRuleUnit(false), cryptoManyKeysUnit())
+		us = append(us, zeroRuleUnit(false), cryptoManyKeysUnit(), mixedSeqUnit())
 		us = append(us, coldUnits(tier, "security", "cipher1", "cipher2", "cipher3")...)
 		us = append(us, coldEntryUnits(tier, "security", "cipher")...)
 		return us
@@ -565,6 +565,52 @@ func c07Mac(c *core.Ctx, k *core.Case) {
 	}
 }
 
+// oracle "mixed-seq": I=[count, bearer, direction, seed, steps] B=[key] — ciphering and
+// integrity calls of all six algorithms with ONE key and one (COUNT, BEARER, DIRECTION),
+// in a random order, short lengths that are mostly not multiples of four octets; every
+// call is compared with the reference. The two families share their stream generators:
+// anything one call leaves behind in them for the next one shows as a mismatch.
+func cryptoMixedSeq(c *core.Ctx, k *core.Case) {
+	if !refReady(c) {
+		return
+	}
+	r := prng.New(uint64(k.I[3]))
+	var trace []string
+	for step := 0; step < int(k.I[4]); step++ {
+		alg := int64(1 + r.Intn(3))
+		n := r.Intn(41)
+		if r.Chance(1, 4) {
+			n = r.Range(40, 300)
+		}
+		before := c.Report().Counters["violating_cases"]
+		if r.Bool() {
+			trace = append(trace, fmt.Sprintf("NEA%d/%d", alg, n))
+			c06Cipher(c, &core.Case{Oracle: "cipher", Target: fmt.Sprintf("security.NEA%d", alg), I: []int64{alg, k.I[0], k.I[1], k.I[2], int64(8 * n), apiNAS}, B: [][]byte{k.B[0], r.Bytes(n)}})
+		} else {
+			trace = append(trace, fmt.Sprintf("NIA%d/%d", alg, n))
+			c07Mac(c, &core.Case{Oracle: "mac", Target: fmt.Sprintf("security.NIA%d", alg), I: []int64{alg, k.I[0], k.I[1], k.I[2], int64(8 * n), apiNAS, 0}, B: [][]byte{k.B[0], r.Bytes(n)}})
+		}
+		if c.Report().Counters["violating_cases"] > before {
+			if len(trace) > 6 {
+				trace = trace[len(trace)-6:]
+			}
+			c.Fail(k, "mixed-series-mismatch:"+trace[len(trace)-1][:4], fmt.Sprintf("call %d of a series of ciphering and integrity calls with one key, COUNT %#x, BEARER %d, DIRECTION %d differs from the standard function; the last calls (algorithm/octets): %v", step, k.I[0], k.I[1], k.I[2], trace))
+			return
+		}
+	}
+	c.Count("mixed_series_calls", k.I[4])
+}
+
+func mixedSeqUnit() core.Unit {
+	return core.Unit{Name: "mixed-series", Weight: 30, Run: func(c *core.Ctx) {
+		for i := 0; i < c.Pick(60, 1500); i++ {
+			k := &core.Case{Oracle: "mixed-seq", Target: "security", I: []int64{int64(c.R.Uint32()), int64(c.R.Intn(32)), int64(i % 2), int64(c.R.Uint64() >> 1), 40}, B: [][]byte{c.R.Bytes(16)}}
+			c.Do(k)
+			c.NonTrivial(k.Hash())
+		}
+	}}
+}
+
 // oracle "mac-seq": I=[alg, count, bearer, direction, api, seed] B=[key] — a series of MAC
 // calls with identical parameters and varying message lengths (see cipher-seq).
 func c07MacSeq(c *core.Ctx, k *core.Case) {
@@ -596,7 +642,7 @@ func init() {
 			"the MAC of a zero-length message is the value the specifications' formulae give (f9: D=1, no message block; CMAC over the 8-octet header; EIA3: z[0] xor z[32])",
 			"bit lengths are within 0..8*len(buffer); the message is the first LENGTH bits of the buffer",
 		},
-		Oracles: map[string]func(*core.Ctx, *core.Case){"cold-entries": coldEntries, "mac": c07Mac, "mac-seq": c07MacSeq, "concurrent": c07Concurrent, "many-keys": c07ManyKeys, "cold-concurrent": coldConcurrent},
+		Oracles: map[string]func(*core.Ctx, *core.Case){"cold-entries": coldEntries, "mac": c07Mac, "mac-seq": c07MacSeq, "cipher": c06Cipher, "mixed-seq": cryptoMixedSeq, "concurrent": c07Concurrent, "many-keys": c07ManyKeys, "cold-concurrent": coldConcurrent},
 		Floors: func(tier string, cov map[string]map[string]int64, cnt map[string]int64) []string {
 			var f []string
 			if cnt["reference_kat_vectors_passed"] == 0 {
@@ -730,6 +776,7 @@ func init() {
 		}
 		us = append(us, cryptoConcurrentUnits("concurrent")...)
 		us = append(us, zeroRuleUnit(true), cryptoManyKeysUnit())
+		us = append(us, mixedSeqUnit())
 		us = append(us, coldUnits(tier, "security", "mac1", "mac2", "mac3", "mac0")...)
 		us = append(us, coldEntryUnits(tier, "security", "mac")...)
 		return us
@@ -863,6 +910,26 @@ func c08Laws(c *core.Ctx, k *core.Case) {
 	e1b, _ := enc(p)
 	if !bytes.Equal(e1, e1b) {
 		c.Fail(k, "nondeterministic", "two ciphering runs on equal arguments differ")
+	}
+	// the result is a function of the octets, not of where they live: the same payload at
+	// every offset 1..7 of a larger array (what ciphering msg[7:] behind a security header does)
+	for off := 1; off <= 7 && len(p) > 0; off++ {
+		arr := make([]byte, off+len(p)+3)
+		w := arr[off : off+len(p)]
+		copy(w, p)
+		err := security.NASEncrypt(alg, key, count, bearer, dir, w)
+		if err != nil || !bytes.Equal(w, e1) {
+			c.Fail(k, fmt.Sprintf("result-depends-on-placement:alg%d", alg), fmt.Sprintf("NASEncrypt of the same %d octets at offset %d of an array gives %s (err %v), in a slice of their own %s", len(p), off, hx(w), err, hx(e1)))
+			break
+		}
+		if off < 3 {
+			m1, e1m := security.NASMacCalculate(alg, key, count, bearer, dir, w)
+			m2, e2m := security.NASMacCalculate(alg, key, count, bearer, dir, cloneB(w))
+			if (e1m == nil) != (e2m == nil) || !bytes.Equal(m1, m2) {
+				c.Fail(k, fmt.Sprintf("mac-depends-on-placement:alg%d", alg), fmt.Sprintf("NASMacCalculate of the same %d octets at offset %d of an array gives %x, in a slice of their own %x", len(p), off, m1, m2))
+				break
+			}
+		}
 	}
 	// MAC laws
 	msg, msgIntact := guarded(p)
